@@ -112,7 +112,7 @@ Outcome check_plan(const std::string &prop, const Plan &p)
         RunOpts ro;
         if (p.prop == "C03R")
                 ro.monitor = false; // robustness-only plans outside the modelled domain
-        if (prop == "C16" && p.mutex && !engine_asan())
+        if ((prop == "C16" || prop == "C17") && p.mutex && !engine_asan())
                 ro.lockset = true;
         o.res = run_plan(p, ro);
         o.runs = 1;
@@ -209,7 +209,10 @@ Outcome check_plan(const std::string &prop, const Plan &p)
                 long nl = (long)o.res.eng.lock_calls, nu = (long)o.res.eng.unlock_calls;
                 for (int which = 0; which < 2 && !o.viol.set(); which++) {
                         long n = which == 0 ? nl : nu;
-                        for (long k = 0; k < n && !o.viol.set(); k++) {
+                        // every position when the history has at most 600 calls; beyond that every position of
+                        // the first 200 calls and an even stride over the rest (keeps the cost per history bounded)
+                        long stride = n > 600 ? (n - 200 + 399) / 400 : 1;
+                        for (long k = 0; k < n && !o.viol.set(); k += (k < 200 ? 1 : stride)) {
                                 Plan v = p;
                                 if (which == 0)
                                         v.lockfail = (int)k;
